@@ -305,6 +305,9 @@ def observe(plate, d):
         for w in arr.flatten():
             r, c = w.name[len('well '):].split(',')
             cells.append((plate.row_names.index(r), plate.column_names.index(c)))
+        # the shape and size the slice reports (they decide how a transfer pairs the wells) are those of the wells it selects
+        if tuple(s.shape) != tuple(arr.shape) or int(s.size) != int(arr.size):
+            return ('ok', cells, ('the slice reports shape', tuple(s.shape), 'size', int(s.size), 'but selects', tuple(arr.shape)))
         return ('ok', cells, tuple(arr.shape))
     except Exception as e:  # noqa
         return ('exc', common.exc_class(e))
